@@ -157,6 +157,13 @@ def make_policy(p: dict | None, step_name: str) -> Any:
                                 wait=RP.wait_chain(RP.wait_fixed(p["first"]), RP.wait_exponential(multiplier=1, exp_base=2, max=64)))
     elif kind == "legacy":
         inner = RP.ConstantDelayRetryPolicy(maximum_attempts=p["n"], delay=p.get("wait", 0))
+    elif kind == "incr":
+        # start, start+inc, start+2*inc, ... (integral virtual seconds)
+        inner = mk_retry_policy(stop=RP.stop_after_attempt(p["n"]),
+                                wait=RP.wait_incrementing(start=p.get("start", 0), increment=p["inc"], max=p.get("max", 1000)))
+    elif kind == "exp":
+        inner = mk_retry_policy(stop=RP.stop_after_attempt(p["n"]),
+                                wait=RP.wait_exponential(multiplier=p.get("mult", 1), exp_base=p.get("base", 2), max=p.get("max", 64)))
     elif kind == "raises":
         class _Raises:
             def next(self, elapsed_time: float, attempts: int, error: Exception, seed: int | None = None) -> float | None:
@@ -345,6 +352,21 @@ async def _interp(run: Run, sdef: dict, ctx: Context, ev: Any, rn: int) -> Any:
         elif op == "fail_on_k":
             if getattr(ev, "k", None) == act[1]:
                 raise ET.Boom(f"e{act[2]}")
+        elif op == "fail_nth":
+            # transient failures scripted by the ORDINAL of the execution of this invocation (input event), counted by the
+            # harness -- independent of what the engine reports as retry_number: ["fail_nth", [1, 2, "rerun"], e, only_k]
+            # fails the 1st and 2nd execution and the first execution that follows one which ended WITHOUT a failure
+            # (i.e. a collect re-run: nothing failed, the engine ran the invocation again on a fresh snapshot)
+            if len(act) < 4 or act[3] is None or getattr(ev, "k", None) == act[3]:
+                hist = [r for r in run.trace.steps if r[0] in ("enter", "exit") and r[1] == name and r[2] == uid]
+                nth = sum(1 for r in hist if r[0] == "enter")
+                exits = [r for r in hist if r[0] == "exit"]
+                is_rerun = bool(exits) and exits[-1][5].get("status") == "ok"
+                done_rr = run.__dict__.setdefault("_rerun_failed", set())
+                if nth in act[1] or ("rerun" in act[1] and is_rerun and (name, uid) not in done_rr):
+                    if is_rerun and nth not in act[1]:
+                        done_rr.add((name, uid))
+                    raise ET.Boom(f"e{act[2]}")
         elif op == "collect":
             bufname = act[2] if len(act) > 2 else None
             try:
